@@ -71,7 +71,7 @@ def gen(tape: Tape, tier: str) -> dict:
         reindexes=(None, None, True, False),
         dtypes=("f8", "f8", "f4", "i8", "i4", "u1", "i2", "b1"),
         label_kinds=("int", "int", "float", "float"),
-        max_n=30,
+        max_n=40 if tier == "thorough" else 30,
         max_ndim=3,
         by_dask_p=0.2,
         missing_label_p=0.2,
